@@ -158,5 +158,3 @@ func cmdVerify(args []string) {
 	fmt.Printf("%v  total %.1fs\n", counts, time.Since(t0).Seconds())
 }
 
-func cmdCheck(args []string)  { fmt.Println("not implemented yet"); os.Exit(2) }
-func cmdReplay(args []string) { fmt.Println("not implemented yet"); os.Exit(2) }
